@@ -133,17 +133,57 @@ func zzFamily(fam, n int) string {
 			text += " o @include(if: $v) { x o { y } } o @skip(if: $w) { y o { x } }"
 		}
 		return text + " }"
+	case 11:
+		// two chains of fragments spread side by side; at every level the same
+		// keys are met under different object types (mutually exclusive: x1, x2)
+		// and on the interface itself (not exclusive: y1, y2), so the pair
+		// (Fi+1, Gi+1) is asked for repeatedly with alternating exclusivity
+		text := "{ start { ...F0 ...G0 } }"
+		for i := 0; i < n; i++ {
+			for c := 0; c < 2; c++ {
+				frag, on := "F", "A"
+				if c == 1 {
+					frag, on = "G", "B"
+				}
+				next := frag + zzItoa(i+1)
+				text += " fragment " + frag + zzItoa(i) + " on Node {"
+				for k := 1; k <= 2; k++ {
+					text += " ... on " + on + " { x" + zzItoa(k) + ": next { ..." + next + " } } y" + zzItoa(k) + ": next { ..." + next + " }"
+				}
+				text += " }"
+			}
+		}
+		return text + " fragment F" + zzItoa(n) + " on Node { id } fragment G" + zzItoa(n) + " on Node { id }"
 	}
 	return "{ a }"
+}
+
+func zzC19ChainSchema() Schema {
+	node := NewInterface(InterfaceConfig{Name: "Node", Fields: Fields{"id": &Field{Type: String}}})
+	node.AddFieldConfig("next", &Field{Type: node})
+	mk := func(name string) *Object {
+		return NewObject(ObjectConfig{Name: name, Interfaces: []*Interface{node},
+			Fields: Fields{"id": &Field{Type: String}, "next": &Field{Type: node}}})
+	}
+	a, b := mk("A"), mk("B")
+	node.ResolveType = func(p ResolveTypeParams) *Object { return a }
+	s, err := NewSchema(SchemaConfig{Query: NewObject(ObjectConfig{Name: "Query", Fields: Fields{"start": &Field{Type: node}}}), Types: []Type{a, b}})
+	if err != nil {
+		panic(err)
+	}
+	return s
 }
 
 // ZZ_C19_growth: for each scaled family, doubling the size multiplies the cost
 // of validation+planning by at most 12 (i.e. growth is at most cubic).
 func ZZ_C19_growth() {
-	fam := zzChoice("family", 11)
+	fam := zzChoice("family", 12)
 	w := &zzWorld{}
 	schema := zzBuildSchema(w)
 	n := zzParam("N", 6)
+	if fam == 11 {
+		schema = zzC19ChainSchema()
+	}
 	c1 := zzCost(func() { zzValidateAndPlan(&schema, zzFamily(fam, n)) })
 	c2 := zzCost(func() { zzValidateAndPlan(&schema, zzFamily(fam, 2*n)) })
 	zzAssert(c1 > 0, "cost counters are not attributed")
